@@ -41,6 +41,10 @@ pub struct Plan {
     pub dts: Vec<u64>,
     /// payout mode: per block (ntx, fee, hops, gt)
     pub blocks: Vec<(usize, u64, usize, bool)>,
+    /// work mode: the validating replica joined mid-chain (the parent is the first block it ever received,
+    /// so its total supply is not loaded and ledger-dependent checks are off); the work gate must hold there too
+    #[serde(default)]
+    pub mid_chain: bool,
 }
 
 const HB: u64 = 1000;
@@ -60,7 +64,8 @@ fn gen(seed: u64, tier: Tier) -> Plan {
             dts.push(*rng.pick(&[1u64, 50, 200, 500, 900, 1500, 1999, 2000, 2500]) + rng.below(40));
         }
         dts.sort();
-        Plan { seed, mode: "work".into(), prefix: rng.range(1, 3) as usize, txs, dts, blocks: vec![] }
+        let mid_chain = rng.chance(1, 4);
+        Plan { seed, mode: "work".into(), prefix: rng.range(1, 3) as usize, txs, dts, blocks: vec![], mid_chain }
     } else {
         let n = rng.range(4, if tier == Tier::Quick { 10 } else { 20 }) as usize;
         let gt_style = rng.below(3);
@@ -74,7 +79,7 @@ fn gen(seed: u64, tier: Tier) -> Plan {
                 (rng.range(1, 4) as usize, rng.below(80_000), rng.below(4) as usize, gt)
             })
             .collect();
-        Plan { seed, mode: "payout".into(), prefix: 0, txs: vec![], dts: vec![], blocks }
+        Plan { seed, mode: "payout".into(), prefix: 0, txs: vec![], dts: vec![], blocks, mid_chain: false }
     }
 }
 
@@ -253,8 +258,15 @@ impl Scenario for C08 {
                 };
                 let bytes = b.serialize_for_net(saito_core::core::consensus::block::BlockType::Full);
                 let mut n = Node::new(&w.cfg, &w.keys[1].clone());
-                for i in &chain {
+                let joined_here = plan.mid_chain && chain.len() >= 2;
+                for (ci, i) in chain.iter().enumerate() {
+                    if joined_here && ci + 1 < chain.len() {
+                        continue;
+                    }
                     let _ = n.add_block_bytes(&w.recs[*i].bytes.clone());
+                }
+                if joined_here {
+                    r.probe("replica_joined_mid_chain");
                 }
                 if n.tip().1 != prec.hash {
                     r.discarded = true;
